@@ -60,13 +60,3 @@ Definition table1 : list (string * (list Z -> list Z)) :=
   ("maxpyin_I", f3 maxpyin_I) :: ("maxpyin_u64", f3 maxpyin_u64) ::
   ("axmyin_I", f3 axmyin_I) :: ("axmyin_u64", f3 axmyin_u64) :: nil.
 
-Definition table : list (string * (list Z -> list Z)) := table1.
-
-Fixpoint lookup (name : string) (t : list (string * (list Z -> list Z))) : option (list Z -> list Z) :=
-  match t with
-  | nil => None
-  | (n, f) :: r => if String.eqb n name then Some f else lookup name r
-  end.
-
-Definition run (name : string) (args : list Z) : option (list Z) :=
-  match lookup name table with Some f => Some (f args) | None => None end.
